@@ -199,10 +199,30 @@ def rule_r2(chk):
     chk.ob("C07-R2", "stacked_time.simulators.simulate_frame[evaluator wrt]", ok if ce else None,
            "the evaluator (and its update map) is built from wrt_spots", m.loc(g))
     c = m.func("_copy_exogenized_data_to_frame_data")
-    src = squash(c)
     ps = params(c)
-    ok = f"indexes=tuple(zip(*{ps[1]}))" in src and f"{ps[0]}[indexes]={ps[2]}[indexes]" in src
-    chk.ob("C07-R2", "stacked_time.simulators._copy_exogenized_data_to_frame_data", ok, "data[spots] = input[spots]", m.loc(c))
+    stores = [n for n in walk_no_nested(c) if isinstance(n, ast.Assign) and isinstance(n.targets[0], ast.Subscript) and unparse(n.targets[0].value) == ps[0]]
+    ok, detail = None, "no store into the frame data recognised"
+    if len(stores) == 1 and isinstance(stores[0].value, ast.Subscript):
+        st = stores[0]
+        same_index = squash(st.targets[0].slice) == squash(st.value.slice)
+        from_input = unparse(st.value.value) == ps[2]
+
+        def derives(node, depth=0):
+            """every name in the index expression is computed from the spots parameter only"""
+            names = {x.id for x in ast.walk(node) if isinstance(x, ast.Name) and isinstance(x.ctx, ast.Load)}
+            comp_bound = {y.id for x in ast.walk(node) if isinstance(x, ast.comprehension) for y in ast.walk(x.target) if isinstance(y, ast.Name)}
+            for nm in names - comp_bound - {"tuple", "zip", "list"}:
+                if nm == ps[1]:
+                    continue
+                v = assign_value(c, nm)
+                if v is None or depth > 4 or not derives(v, depth + 1):
+                    return False
+            return True
+        idx_ok = derives(st.targets[0].slice) and any(isinstance(x, ast.Name) and x.id == ps[1] for n in walk_no_nested(c) for x in ast.walk(n) if isinstance(n, ast.Assign))
+        ok = same_index and from_input and idx_ok
+        detail = (f"{unparse(st)[:80]}: same index on both sides: {same_index}; read from the input array: {from_input}; "
+                  f"index computed from the exogenized spots only: {idx_ok}")
+    chk.ob("C07-R2", "stacked_time.simulators._copy_exogenized_data_to_frame_data", ok, detail, m.loc(c))
     em = chk.repo.mod(EVM)
     um = em.func("_create_update_map")
     src = squash(um)
